@@ -505,8 +505,9 @@ class Evaluator:
             return None
         declared = bool(got) if st == "ok" else False
         part.count("internal_valid" if declared else "internal_invalid")
+        part.count("internal_validity_" + {None: "dontcare", True: "must", False: "must_not"}[want])
         if want is None:
-            part.count("dontcare_internal_validity")
+            pass
         elif want and not declared:
             self.viol("valid-internal", "rejects-inside", vx, f"is_valid_internal_value({short(x)}) is False, but the value has an admissible type and lies inside the scale limits")
         elif not want and declared:
@@ -555,8 +556,9 @@ class Evaluator:
             return
         declared = bool(got) if st == "ok" else False
         part.count("physical_valid" if declared else "physical_invalid")
+        part.count("physical_validity_" + {None: "dontcare", True: "must", False: "must_not"}[want])
         if want is None:
-            part.count("dontcare_physical_validity")
+            pass
         elif want and not declared:
             why = {"RAT-FUNC": "lies inside the limits of COMPU-PHYS-TO-INTERNAL", "SCALE-RAT-FUNC": "lies inside the limits of COMPU-PHYS-TO-INTERNAL",
                    "TEXTTABLE": "is the text of exactly one scale"}.get(self.cat, "is the image of a valid internal value of a monotone continuous method")
